@@ -187,6 +187,7 @@ Proof.
   destruct (negb (match c_mode c with Some m => m | None => depth prog1 >? 1 end)).
   - (* SINGLE *)
     destruct (negb (depth prog1 =? 1)) eqn:Ed; [discriminate|]. destruct (negb (balanced prog1)); [discriminate|].
+    destruct (l_len prog1 >? c_max c); [discriminate|].
     unfold bind. destruct (parse_single tbl prog1) as [p|] eqn:Ep; [|discriminate]. intros Hc.
     assert (Hne : l_ch prog1 <> []) by (apply depth_pos_nonleaf; lia).
     destruct prog1 as [r m w ch] eqn:E1. cbn [l_ch] in Hne.
